@@ -320,10 +320,13 @@ Definition const_range_v : visitor := fun e =>
   | EBinary a BRange l r =>
       match int_lit l, int_lit r with
       | Some (_, lo), Some (_, hi) =>
-          let size := wrap KInt (iv hi - iv lo + 1) in
-          if size <? 1 then (patch e (EConst ann0 (VArr (TNum KInt) [])), acc0)
-          else if range_window <? size then (e, acc0)
-          else (patch e (EConst ann0 (VArr (TNum KInt) (range_list (iv lo) (Z.to_nat size)))), acc0)
+          (* max < min: the empty slice; otherwise size := max - min + 1 in Go int arithmetic (it wraps
+             when the span does not fit an int), folded only for 1 <= size <= 10^6 *)
+          if iv hi <? iv lo then (patch e (EConst ann0 (VArr (TNum KInt) [])), acc0)
+          else
+            let size := wrap KInt (iv hi - iv lo + 1) in
+            if (size <? 1) || (range_window <? size) then (e, acc0)
+            else (patch e (EConst ann0 (VArr (TNum KInt) (range_list (iv lo) (Z.to_nat size)))), acc0)
       | _, _ => (e, acc0)
       end
   | _ => (e, acc0)
